@@ -65,7 +65,7 @@ impl<T: Debug + Clone + Ord> BooleanFunction<T> for TruthTable<T> {
             .outputs
             .clone()
             .into_iter()
-            .map(|output| (false, output))
+            .map(|output| (true, output))
             .collect::<Vec<_>>();
 
         for (input_index, input) in self.inputs.iter().rev().enumerate() {
@@ -74,11 +74,10 @@ impl<T: Debug + Clone + Ord> BooleanFunction<T> for TruthTable<T> {
                     .filter(|row_index| {
                         let target_variable_is_one =
                             row_index & (1 << input_index) == (1 << input_index);
-                        (*target_variable_should_be_1 && target_variable_is_one)
-                            || (!*target_variable_should_be_1 && !target_variable_is_one)
+                        *target_variable_should_be_1 != target_variable_is_one
                     })
                     .for_each(|row_index| {
-                        outputs_kept[row_index].0 = true;
+                        outputs_kept[row_index].0 = false;
                     });
             }
         }
